@@ -340,3 +340,25 @@ func TestVerifBoundedParseExtensions(t *testing.T) {
 	}
 	fmt.Printf("VERIF-BOUNDED: ok cases=%d\n", n)
 }
+
+// TestVerifReplayEmptyQualifiers: a policy configured with an empty qualifier list (schema-valid) must encode as a
+// PolicyInformation without policyQualifiers (RFC 5280: SEQUENCE SIZE (1..MAX) OPTIONAL), i.e. SEQUENCE { OID } only.
+func TestVerifReplayEmptyQualifiers(t *testing.T) {
+	c := CertPolicies{Content: []CertPolicy{{Oid: "1.2.3", Qualifiers: []PolicyQualifiers{}}}}
+	b, err := c.Builder()
+	if err != nil {
+		fmt.Printf("VERIF-REPLAY: not-reproduced builder error %v\n", err)
+		return
+	}
+	ext, err := b.Compile(nil)
+	if err != nil {
+		fmt.Printf("VERIF-REPLAY: not-reproduced compile error %v\n", err)
+		return
+	}
+	want := []byte{0x30, 0x06, 0x30, 0x04, 0x06, 0x02, 0x2a, 0x03}
+	if string(ext.Value) != string(want) {
+		fmt.Printf("VERIF-REPLAY: confirmed qualifiers: [] encodes as % x, RFC 5280 wants % x (no empty policyQualifiers)\n", ext.Value, want)
+		return
+	}
+	fmt.Printf("VERIF-REPLAY: not-reproduced value % x\n", ext.Value)
+}
